@@ -8,6 +8,7 @@ import (
 	"fmt"
 	"io"
 	"log/slog"
+	"net"
 	"net/http"
 	"reservoir/cache"
 	"reservoir/config"
@@ -336,8 +337,15 @@ func (p *Proxy) handleCONNECT(r responder.Responder, proxyReq *http.Request) err
 		if err != nil {
 			if errors.Is(err, io.EOF) {
 				slog.Debug("Client closed connection in CONNECT tunnel", "host", proxyReq.Host)
+			} else if errors.Is(err, io.ErrUnexpectedEOF) || errors.Is(err, net.ErrClosed) {
+				slog.Debug("Client dropped connection in CONNECT tunnel", "host", proxyReq.Host, "error", err)
 			} else {
 				slog.Error("Error reading request from client in CONNECT tunnel", "host", proxyReq.Host, "error", err)
+				// The request could not be parsed: tell the client so, as a plain proxied
+				// request would be told, instead of just dropping the tunnel.
+				badRequest := responder.NewRawHTTPResponder(tlsConn)
+				badRequest.SetHeader("Connection", "close")
+				badRequest.WriteError("malformed HTTP request", http.StatusBadRequest)
 			}
 			break
 		}
